@@ -165,6 +165,8 @@ pub struct ConvertRequire {
     metadata: RuleMetadata,
     current: RequireMode,
     target: RequireMode,
+    /// true once `current` and `target` have been provided through `configure`
+    configured: bool,
 }
 
 impl Default for ConvertRequire {
@@ -173,6 +175,7 @@ impl Default for ConvertRequire {
             metadata: RuleMetadata::default(),
             current: RequireMode::Path(Default::default()),
             target: RequireMode::Roblox(Default::default()),
+            configured: false,
         }
     }
 }
@@ -211,6 +214,8 @@ impl RuleConfiguration for ConvertRequire {
             }
         }
 
+        self.configured = true;
+
         Ok(())
     }
 
@@ -219,7 +224,16 @@ impl RuleConfiguration for ConvertRequire {
     }
 
     fn serialize_to_properties(&self) -> RuleProperties {
-        RuleProperties::new()
+        let mut properties = RuleProperties::new();
+
+        // both properties are required when reading a configuration, so they are
+        // written back whenever they were provided
+        if self.configured {
+            properties.insert("current".to_owned(), (&self.current).into());
+            properties.insert("target".to_owned(), (&self.target).into());
+        }
+
+        properties
     }
 
     fn set_metadata(&mut self, metadata: RuleMetadata) {
